@@ -6,15 +6,13 @@ func init() {
 		Pkgs:     []string{"rules", "root"},
 		InitPkgs: []string{"rules"},
 		Jobs: func(tier string) []Job {
-			maxK := 3
-			if tier == "thorough" {
-				maxK = 4
-			}
+			maxK := 3 // with all six payload kinds; thorough adds k=4 over four kinds and k=5 over three
 			jobs := []Job{{Pkg: "root", Func: "verifC09Vacuity", Vacuity: true}}
 			for k := 0; k <= maxK; k++ {
 				jobs = append(jobs, Job{Pkg: "root", Func: "verifC09", Args: []int64{int64(k), 6}})
 			}
 			if tier == "thorough" {
+				jobs = append(jobs, Job{Pkg: "root", Func: "verifC09", Args: []int64{4, 4}})
 				jobs = append(jobs, Job{Pkg: "root", Func: "verifC09", Args: []int64{5, 3}})
 			}
 			return jobs
@@ -23,7 +21,7 @@ func init() {
 		MustReach: []string{"c09.mixed", "c09.two-exceptions"},
 		Bounds: map[string]string{
 			"quick":    "sequences of 0..3 rewrite rules; each rule: exception flag and $important symbolic, payload one of {empty, CNAME, rcode-only, A, TXT, MX} with symbolic contents",
-			"thorough": "sequences of 0..4 rules over the six payload kinds, and length 5 over {empty, CNAME, rcode-only}",
+			"thorough": "as quick, plus sequences of 4 rules over {empty, CNAME, rcode-only, A} and of 5 rules over {empty, CNAME, rcode-only}",
 		},
 		Outside:     []string{"SRV/SVCB/HTTPS/AAAA/PTR payloads (same comparison path as MX / A / TXT)", "more than 5 rewrite rules on one hostname", "$badfilter on rewrite rules (C08)"},
 		Assumptions: []string{"rules are built field by field and re-parsed from '||x^$dnsrewrite=...' text during native replay"},
